@@ -79,3 +79,31 @@ Print Assumptions C01_read_unsized.
    DAG with declared true sizes is one *)
 Example C01_unsized_example : uwell ex_root = true /\ well_sized ex_root = false /\ (forall b, well_sized b = true -> uwell b = true).
 Proof. split; [vm_compute; reflexivity|]. split; [vm_compute; reflexivity|exact well_sized_uwell]. Qed.
+
+(* the reference importer's TRICKLE layout (boxo importer/trickle, raw leaves; File/Trickle.v, compared with boxo's own DAG on
+   every run): for every link width >= 1 and every non-empty chunk list the DAG has true declared sizes, denotes the
+   concatenation of the chunks, records cumulative sizes - and this library reads it back exactly, as a whole, under every
+   Seek/Read history, with its length *)
+From UV Require Import File.Trickle File.TrickleProofs.
+Theorem C01_reference_trickle_dag_is_well_sized : forall (W : nat), (1 <= W)%nat -> forall chunks : list bytes,
+  chunks <> [] -> (blen (concat chunks) < bound63)%N ->
+  let root := fst (trickle_layout W chunks) in
+  well_sized root = true /\ content root = concat chunks /\ snd (trickle_layout W chunks) = cum_size root /\ tsizes_ok root = true.
+Proof. exact trickle_well_sized. Qed.
+Print Assumptions C01_reference_trickle_dag_is_well_sized.
+
+Theorem C01_reference_trickle_dag_reads_back : forall (W : nat) (chunks : list bytes),
+  (1 <= W)%nat -> chunks <> [] -> (blen (concat chunks) < bound63)%N ->
+  let root := fst (trickle_layout W chunks) in
+  fst (fst (drain_all (stream nofault root 0) [] [])) = concat chunks
+  /\ snd (drain_all (stream nofault root 0) [] []) = StEOF
+  /\ (forall ops, map forget_loads (reader_run nofault root rs0 ops) = abs_run (concat chunks) 0 ops)
+  /\ node_length root = Ok (zlen (concat chunks)).
+Proof. exact trickle_reads_back. Qed.
+Print Assumptions C01_reference_trickle_dag_reads_back.
+
+Example C01_reference_trickle_example :
+  let chunks := [[1; 2]; [3]; [4; 5]; [6]; [7]; [8; 9]; [10]; [11]; [12]; [13]; [14]; [15]; [16]; [17]; [18]; [19]; [20]]%N in
+  well_sized (fst (trickle_layout 2 chunks)) = true /\ content (fst (trickle_layout 2 chunks)) = concat chunks.
+Proof. exact trickle_demo. Qed.
+Print Assumptions C01_reference_trickle_example.
